@@ -178,7 +178,7 @@ func derefType(t types.Type) types.Type {
 func C08(c *Ctx) {
 	r := c.R
 	r.Rule("R08.1", "recover first: every entry point through which sender-chosen bytes reach contract, guest or validator code (BoltVM.Run, BoltVM.HandleIBTP, WasmVM.Run, VerifyPool.CheckProof) installs a deferred recover() before any instruction that may panic, and the recovering closure sets the error result.")
-	r.Rule("R08.2", "no bare goroutine on input: every goroutine started under block execution (verifySign, verifyProofs) either installs its own recover first or calls nothing but recovering entry points of R08.1, synchronisation, logging and error formatting.")
+	r.Rule("R08.2", "no bare goroutine on input: every goroutine started under block execution (verifySign, verifyProofs) either installs its own recover first or calls nothing but recovering entry points of R08.1, synchronisation, logging and error formatting; a goroutine that recovers signals its WaitGroup by a deferred Done registered before anything that may panic (a plain Done is skipped by the swallowed panic and the spawner waits for ever).")
 	r.Rule("R08.3", "dispatch only through recovering entries: the executor package reaches contract code only through BoltVM.Run / BoltVM.HandleIBTP / vm.VM.Run (frozen exception: evmInterchain).")
 	r.Rule("R08.4", "nil-able transaction parts: applyTransaction tests tx.GetFrom() for nil before any ledger call or defer, and answers with a FAILED receipt; transfer tests both addresses for nil and the amount for a negative sign before touching a balance; the optional callee (vm.Context.Callee, tx.GetTo()) is dereferenced - method call, load, or a helper that does so - only behind its nil test in every function of executor and vm packages that does not recover first.")
 	r.Rule("R08.5", "one receipt per transaction, in order: ApplyTransactions appends exactly one receipt per iteration of the loop over the block's transactions and returns that slice; applyTx / applyTransaction return a receipt that is an allocation (never nil) on every path; the receipts persisted are the ones returned.")
@@ -268,6 +268,33 @@ func C08(c *Ctx) {
 				if d, _ := recoverDefer(cl); d != nil {
 					ok, pos, why := c.recoversFirstGo(cl, d)
 					r.Check(ok, "R08.2", key, pos, why, why)
+					// the join survives the swallowed panic: a WaitGroup.Done of a recovering goroutine is deferred, and
+					// registered before anything that may panic - a plain call at the end is skipped by the panic and the
+					// spawner's Wait never returns
+					var dones []ssa.CallInstruction
+					for _, f := range core.WithClosures(cl) {
+						for _, call := range core.Calls(f) {
+							if core.CalleeName(call) == "(*sync.WaitGroup).Done" {
+								dones = append(dones, call)
+							}
+						}
+					}
+					if len(dones) > 0 {
+						badJoin := ""
+						for _, dn := range dones {
+							df, isDefer := dn.(*ssa.Defer)
+							if !isDefer || dn.Parent() != cl {
+								badJoin = "WaitGroup.Done at " + c.P.Pos(dn.Pos()) + " is a plain call, not deferred: the panic that the goroutine's recover swallows skips it"
+								continue
+							}
+							jok, _, jwhy := c.recoversFirstGo(cl, df)
+							if !jok {
+								badJoin = "the deferred WaitGroup.Done is registered too late: " + jwhy
+							}
+						}
+						r.Check(badJoin == "", "R08.2", key+": join survives a swallowed panic", c.P.Pos(g.Pos()), "WaitGroup.Done is deferred before anything that may panic",
+							badJoin+"; wg.Wait() of the executor then blocks for ever: one malformed transaction wedges block execution")
+					}
 					continue
 				}
 				bad := ""
